@@ -1219,7 +1219,40 @@ func (fc *FnCtx) havocVolatileOnSync() {}
 
 func (fc *FnCtx) doSend(x *ssa.Send) {
 	fc.abstractedNote("channel send is a no-op for the sender")
-	_ = fc.term(x.X)
+	v := fc.value(x.X)
+	if fc.contract == nil {
+		return
+	}
+	var sends []*ssa.Send
+	for _, b := range fc.fn.Blocks {
+		for _, in := range b.Instrs {
+			if sd, ok := in.(*ssa.Send); ok {
+				sends = append(sends, sd)
+			}
+		}
+	}
+	sort.Slice(sends, func(i, j int) bool { return sends[i].Pos() < sends[j].Pos() })
+	ord := 0
+	for i, sd := range sends {
+		if sd == x {
+			ord = i + 1
+		}
+	}
+	for _, aa := range fc.contract.Asserts {
+		if aa.Anchor != "send" || aa.Ord != ord || aa.Cl == nil {
+			continue
+		}
+		aa.Matched++
+		sc := fc.funcScope(fc.env, fc.entryEnv, nil)
+		sc.pos = x.Pos()
+		sc.mode = "site"
+		if v.P != nil {
+			sc.extra = map[string]specVal{"$v": {p: v.P, ty: v.P.Type}}
+		} else {
+			sc.extra = map[string]specVal{"$v": {t: v.T, ty: x.X.Type()}}
+		}
+		fc.assert("assert", fmt.Sprintf("%s:send#%d.assert#%d", fc.name, ord, aa.Cl.N), sc.trBool(aa.Cl.E), aa.Cl.Src, x.Pos(), false)
+	}
 }
 
 func (fc *FnCtx) doSelect(x *ssa.Select) {
